@@ -127,6 +127,13 @@ DED.update({
          "douglas_peucker (recursion, subsequence, tolerance) and visvalingam: bounded only."),
 })
 
+DED["C07"] = ("Network.run_routing_backward under C06's certificate (predecessor tree, the source is the root): None exactly when the target has "
+              "no antecedent; otherwise the walk through the antecedents ends at the source, the recorded path is that chain reversed (source to "
+              "target), consecutive nodes are joined by the recorded antecedent edge (an arc in the direction of travel by C06's TREE clause), and "
+              "the weights of the edges used sum to the target's label, i.e. the shortest distance. C06's TREE clause itself is proved on the "
+              "forward loop.",
+              "every GEOMETRY clause (edge polylines chained end to end, oriented along the travel, junction vertices not repeated, starting at the "
+              "source's position) is bounded only: Track.copy / reverse / > / + are opaque in this contract; termination of the walk is not proved.")
 for i, b, n in [
     ("C01", "all histories of feature operations to a depth bound over a colliding name alphabet, random longer ones; run-time contract = abstract name->column map", ""),
     ("C02", "all expression trees to depth 3 over a small alphabet, random to depth 6, vectors with 0, negatives, ties, NaN; oracle = ordinary arithmetic under the documented operator table", ""),
